@@ -1239,6 +1239,30 @@ def plan_C14(tier, rng):
                 for g in samp(rng, grid, 2):
                     cs.write(ep, F["name"], radix_fmt(r), bits, c, wo=True, opts=wf(**dict(g, exp=ec)))
                 cs.write(ep, F["name"], radix_fmt(r), bits, c, wo=True, opts=wf(exp=ec, trim=True))
+    # exact ties behind a letter digit in even generic radices: 1 + (d + 1/2) / r is a dyadic rational when the odd part of r
+    # divides 2d + 1, so its digits are exactly "1.<d><r/2>" and max_significant_digits = 2 is a tie on the digit d
+    # (fix 'parity of the digit, not of its ASCII code': radix 12 "1.A6" -> "1.A", not "1.B")
+    for r in (6, 12, 14, 18, 20, 22, 24, 26, 28, 30, 34, 36):
+        rc = radix_cfgs(r, cfgs)
+        if not rc:
+            continue
+        m_odd = r
+        while m_odd % 2 == 0:
+            m_odd //= 2
+        ec = exp_char(r)
+        for d in range(1, r):
+            if (2 * d + 1) % m_odd:
+                continue
+            for (ip, mx) in ((1, 2), (r, 3), (r * r + 1, 4)):
+                x = ip + (d + 0.5) / r
+                for F in (F64, F32):
+                    i += 1
+                    ep = cs.new_ep()
+                    bits = gens.pyfloat_bits(F, x)
+                    c = [rc[i % len(rc)]]
+                    cs.write(ep, F["name"], radix_fmt(r), bits, c, wo=True, opts=wf(exp=ec), tag="letter-digit-tie")
+                    cs.write(ep, F["name"], radix_fmt(r), bits, c, wo=True, opts=wf(exp=ec, max=mx))
+                    cs.write(ep, F["name"], radix_fmt(r), bits, c, wo=True, opts=wf(exp=ec, max=mx, pos=1, neg=-1))
     models = [("MC_FloatWrite.tla", "MC_FloatWrite_quick.cfg" if quick else "MC_FloatWrite.cfg", 8, 1800)]
     return cs, models, {"input_families": cs.tags, "configurations": cfgs}
 
